@@ -41,6 +41,7 @@ import (
 	"google.golang.org/grpc/codes"
 	"google.golang.org/grpc/status"
 
+	"github.com/liftbridge-io/liftbridge/server/logger"
 	proto "github.com/liftbridge-io/liftbridge/server/protocol"
 )
 
@@ -143,6 +144,95 @@ type vC07Run struct {
 	e0       int64
 	armStart time.Time // start of the last report since the last window end (zero: none)
 	pend     []*vC07Pend
+	// the replicators the real broker r1 started in each of its leadership terms of
+	// this partition (leader epoch -> replica -> replicator): a health tick that is
+	// still in flight when r1 is deposed belongs to one of them
+	terms map[int64]map[string]*replicator
+}
+
+// The real broker of every worker IS replica r1 of the partitions (the other
+// replicas are fictitious): when r1 leads it runs its real replicators, and the ISR
+// requests of r1's terms are built by the real replicator.shrinkISR / expandISR
+// (the call a health tick makes), not by the driver.
+const vC07Self = "r1"
+
+// vC07Logger records what the calling goroutine logged as an error: the replicator
+// reports the controller's answer to its ISR request only there.
+type vC07Logger struct {
+	logger.Logger
+	errs sync.Map // goroutine id -> []string
+}
+
+func (l *vC07Logger) Errorf(format string, v ...interface{}) {
+	gid := vGoID()
+	if cur, ok := l.errs.Load(gid); ok {
+		l.errs.Store(gid, append(cur.([]string), fmt.Sprintf(format, v...)))
+	}
+	l.Logger.Errorf(format, v...)
+}
+
+// viaReplicator lets the replicator issue its request and returns the class of the
+// controller's answer as the replicator logged it
+func (r *vC07Run) viaReplicator(rr *replicator, shrink bool) string {
+	lg, _ := r.srv.logger.(*vC07Logger)
+	gid := vGoID()
+	if lg != nil {
+		lg.errs.Store(gid, []string{})
+		defer lg.errs.Delete(gid)
+	}
+	if shrink {
+		rr.shrinkISR()
+	} else {
+		rr.expandISR()
+	}
+	if lg == nil {
+		return "other:no logger"
+	}
+	cur, _ := lg.errs.Load(gid)
+	for _, m := range cur.([]string) {
+		switch {
+		case strings.Contains(m, "Leader generation mismatch"):
+			return "stale"
+		case strings.Contains(m, "No such partition"), strings.Contains(m, "partition does not exist"),
+			strings.Contains(m, "stream does not exist"):
+			return "nopart"
+		case strings.Contains(m, "ISR"):
+			return "other:" + m
+		}
+	}
+	return ""
+}
+
+// captureTerm remembers the replicators of r1's current leadership term
+func (r *vC07Run) captureTerm() {
+	if r.p == nil {
+		return
+	}
+	r.p.mu.RLock()
+	defer r.p.mu.RUnlock()
+	if !r.p.isLeading || r.p.Leader != vC07Self || len(r.p.replicators) == 0 {
+		return
+	}
+	m := map[string]*replicator{}
+	for k, v := range r.p.replicators {
+		m[k] = v
+	}
+	if r.terms == nil {
+		r.terms = map[int64]map[string]*replicator{}
+	}
+	r.terms[int64(r.p.LeaderEpoch)] = m
+}
+
+// requester: the replicator of the term (l, e) that would send an ISR request about
+// replica rep, if the real broker led that term
+func (r *vC07Run) requester(rep, l string, e uint64) *replicator {
+	if l != vC07Self {
+		return nil
+	}
+	if m := r.terms[int64(e)]; m != nil {
+		return m[rep]
+	}
+	return nil
 }
 
 func (r *vC07Run) create(isr []string) error {
@@ -178,6 +268,7 @@ func (r *vC07Run) create(isr []string) error {
 	}
 	_, e := r.p.GetLeader()
 	r.e0 = int64(e)
+	r.captureTerm()
 	return nil
 }
 
@@ -262,23 +353,43 @@ func (r *vC07Run) pair(ps string) (string, uint64) {
 		return leader, r.p.GetEpoch()
 	case "first":
 		return "r1", uint64(r.e0)
+	case "own":
+		// the most recent leadership term of the real broker
+		own := r.e0
+		for e := range r.terms {
+			if e > own {
+				own = e
+			}
+		}
+		return vC07Self, uint64(own)
 	}
 	panic("unknown pair selector " + ps)
 }
 
-// prefer arranges the broker loads (the environment of an election): the current
-// leader is the least loaded broker of all, `pref` the least loaded of the others.
-// An election that (correctly) leaves the reported leader out picks `pref` among
-// its candidates; one that does not would pick the reported leader again.
+// prefer arranges the broker loads (the environment of an election) so that every
+// wrong candidate list shows: the current leader is the least loaded broker of all,
+// then the replicas OUTSIDE the in-sync set, then `pref` (the in-sync follower the
+// model picks), then the other in-sync followers.  A correct election (candidates =
+// in-sync followers) elects `pref`; one that forgets to exclude the reported leader
+// re-elects it; one that takes its candidates from outside the ISR elects an
+// out-of-sync replica.
 func (r *vC07Run) prefer(pref string) {
 	m := r.srv.metadata
 	leader, _ := r.p.GetLeader()
+	inISR := map[string]bool{}
+	for _, x := range r.p.GetISR() {
+		inISR[x] = true
+	}
 	m.stats.Lock()
 	for _, x := range vC07Replicas {
-		m.stats.brokerLeaderLoad[x] = 5
+		if inISR[x] {
+			m.stats.brokerLeaderLoad[x] = 5
+		} else {
+			m.stats.brokerLeaderLoad[x] = 1
+		}
 	}
 	if pref != "" && pref != "none" {
-		m.stats.brokerLeaderLoad[pref] = 1
+		m.stats.brokerLeaderLoad[pref] = 2
 	}
 	m.stats.brokerLeaderLoad[leader] = 0
 	m.stats.Unlock()
@@ -377,6 +488,20 @@ func (r *vC07Run) step(step map[string]interface{}) (ev vC07Event, ok bool) {
 				defer vC07Slots.Delete(gid)
 				c2, cancel2 := context.WithTimeout(context.Background(), vC07Deadline)
 				defer cancel2()
+				if rr := r.requester(rep, l, e); rr != nil {
+					cls := r.viaReplicator(rr, k == "shrink")
+					switch cls {
+					case "":
+						slot.done <- nil
+					case "stale":
+						slot.done <- status.New(codes.FailedPrecondition, "Leader generation mismatch (logged by the replicator)")
+					case "nopart":
+						slot.done <- status.New(codes.FailedPrecondition, "No such partition (logged by the replicator)")
+					default:
+						slot.done <- status.New(codes.Unknown, cls)
+					}
+					return
+				}
 				if k == "shrink" {
 					slot.done <- r.srv.metadata.ShrinkISR(c2, &proto.ShrinkISROp{
 						Stream: r.stream, Partition: 0, ReplicaToRemove: rep, Leader: l, LeaderEpoch: e})
@@ -439,6 +564,14 @@ func (r *vC07Run) step(step map[string]interface{}) (ev vC07Event, ok bool) {
 				return
 			}
 			args["ok"] = okFlag
+			if rr := r.requester(rep, l, e); rr != nil && okFlag {
+				// the request of a term the real broker led: built and sent by its
+				// real replicator (l, e = what that term's requests must carry)
+				args["via"] = "replicator"
+				obs.Err = r.viaReplicator(rr, a == "Shrink")
+				return
+			}
+			args["via"] = "driver"
 			var st *status.Status
 			if a == "Shrink" {
 				st = r.srv.metadata.ShrinkISR(reqCtx, &proto.ShrinkISROp{
@@ -515,6 +648,7 @@ func (r *vC07Run) step(step map[string]interface{}) (ev vC07Event, ok bool) {
 			faultMissed = true
 		}
 	}
+	r.captureTerm()
 	st := r.state()
 	ok = true
 	if !expire && !r.armStart.IsZero() && time.Since(r.armStart) > vC07Timeout*6/10 {
@@ -624,11 +758,24 @@ func TestVerifFailover(t *testing.T) {
 	}
 	VerifGateHook = vC07Gate
 	defer func() { VerifGateHook = nil }()
+	// a deposed r1 follows a fictitious leader: its replication loop is parked
+	// (it would otherwise report the unreachable leader on its own)
+	VerifGateStopHook = func(name, id string, stop <-chan struct{}) {
+		if name == "follower.before_request" {
+			<-stop
+		}
+	}
+	defer func() { VerifGateStopHook = nil }()
 	servers := make([]*Server, workers)
 	for i := range servers {
 		cfg := vOneNodeConfig(t, fmt.Sprintf("c07n%d", i))
 		cfg.Clustering.ReplicaMaxLeaderTimeout = vC07Timeout
+		// the broker is replica r1 of every partition; its health ticks and its
+		// follower loop never act on their own (the driver plays the ticks)
+		cfg.Clustering.ServerID = vC07Self
+		cfg.Clustering.ReplicaMaxLagTime = 24 * time.Hour
 		servers[i] = vOneNodeServer(t, cfg)
+		servers[i].logger = &vC07Logger{Logger: servers[i].logger}
 	}
 	defer func() {
 		for _, s := range servers {
